@@ -84,15 +84,81 @@ func GenCase(r *rand.Rand, key string) Case {
 }
 
 // Driver creates tool instances the way the tool does at start-up.  The start-up path reads the
-// process-global configuration (config.GetSyncerConfig()); Driver serialises "set the global
-// configuration for this case, run the start-up bookkeeping" under one mutex, after which the
-// returned RedisOutput only uses its own copy.
+// process-global configuration (config.GetSyncerConfig()) while it builds the output's own
+// configuration.  The global is therefore only ever written while no start-up is in flight, and
+// start-ups that need the SAME global configuration (mode, window) run concurrently: cfgGate
+// admits them in batches per configuration key.  After VerifNewOutput has returned the
+// RedisOutput only uses its own copy (nothing else in the replay path reads the global).
 type Driver struct {
 	// NewOutput is syncer.VerifNewOutput (injected by the check: it exists under build tag verif).
 	NewOutput func(cfg syncer.SyncerConfig) (*syncer.RedisOutput, error)
 
-	mu  sync.Mutex
-	src *fakeredis.Server
+	gate cfgGate
+	src  *fakeredis.Server
+}
+
+// cfgGate: a shared/exclusive gate keyed by configuration.  Holders of the current key share it;
+// the global configuration is re-installed only when nobody holds the gate.  When holders of
+// another key are waiting, newcomers of the current key queue up too, and when the gate drains
+// the key with the most waiters gets a turn for exactly the goroutines waiting at that moment.
+type cfgGate struct {
+	mu      sync.Mutex
+	cond    *sync.Cond
+	cur     string
+	holders int
+	waiting map[string]int
+	total   int
+	turn    string
+	quota   int
+}
+
+func (g *cfgGate) acquire(key string, install func()) {
+	g.mu.Lock()
+	if g.cond == nil {
+		g.cond = sync.NewCond(&g.mu)
+		g.waiting = map[string]int{}
+	}
+	g.waiting[key]++
+	g.total++
+	for {
+		byTurn := g.turn == key && g.quota > 0
+		free := g.holders == 0 && g.turn == ""
+		join := g.holders > 0 && g.turn == "" && g.cur == key && g.total == g.waiting[key]
+		if byTurn || free || join {
+			if byTurn {
+				if g.quota--; g.quota == 0 {
+					g.turn = ""
+				}
+			}
+			break
+		}
+		g.cond.Wait()
+	}
+	g.waiting[key]--
+	g.total--
+	if g.cur != key {
+		// holders == 0 here: a turn starts only on a drained gate, and free/join imply it
+		install()
+		g.cur = key
+	}
+	g.holders++
+	g.mu.Unlock()
+}
+
+func (g *cfgGate) release() {
+	g.mu.Lock()
+	g.holders--
+	if g.holders == 0 && g.turn == "" && g.total > 0 {
+		best := ""
+		for k, n := range g.waiting {
+			if n > 0 && (best == "" || n > g.waiting[best] || (n == g.waiting[best] && k < best)) {
+				best = k
+			}
+		}
+		g.turn, g.quota = best, g.waiting[best]
+	}
+	g.cond.Broadcast()
+	g.mu.Unlock()
 }
 
 // NewDriver starts the source double (answers INFO replication with a fixed replication id).
@@ -107,20 +173,21 @@ func SourceRunIDs() []string { return []string{strings.Repeat("f", 40), strings.
 
 // Open performs the real start-up bookkeeping against tgt and returns the output to replay with.
 func (d *Driver) Open(tgt Target, c Case, mode config.ReplayMode) (*syncer.RedisOutput, error) {
-	d.mu.Lock()
-	defer d.mu.Unlock()
-	tr := true
-	tdb := -1
-	g := config.GetSyncerConfig()
-	g.Input = &config.InputConfig{}
-	g.Channel = &config.ChannelConfig{}
-	g.Output = &config.OutputConfig{Replay: config.ReplayConfig{
-		ResumeFromBreakPoint: &tr, BisyncEnabled: &tr, ReplayRdbEnableRestore: &tr, ReplayTransaction: &tr,
-		KeyExists: "replace", MaxProtoBulkLen: 512 << 20, TargetDbCfg: &tdb, TargetDb: -1,
-		BatchCmdCount: c.Window, BatchTicker: 10 * time.Millisecond, BatchBufferSize: 64 * 1024, KeepaliveTicker: time.Hour,
-		ReplayRdbParallel: 1, UpdateCheckpointTicker: time.Hour, Mode: mode,
-		Stats: config.OutputStats{DisableLog: true, LogInterval: time.Hour},
-	}}
+	d.gate.acquire(fmt.Sprintf("%s/%d", mode, c.Window), func() {
+		tr := true
+		tdb := -1
+		g := config.GetSyncerConfig()
+		g.Input = &config.InputConfig{}
+		g.Channel = &config.ChannelConfig{}
+		g.Output = &config.OutputConfig{Replay: config.ReplayConfig{
+			ResumeFromBreakPoint: &tr, BisyncEnabled: &tr, ReplayRdbEnableRestore: &tr, ReplayTransaction: &tr,
+			KeyExists: "replace", MaxProtoBulkLen: 512 << 20, TargetDbCfg: &tdb, TargetDb: -1,
+			BatchCmdCount: c.Window, BatchTicker: 10 * time.Millisecond, BatchBufferSize: 64 * 1024, KeepaliveTicker: time.Hour,
+			ReplayRdbParallel: 1, UpdateCheckpointTicker: time.Hour, Mode: mode,
+			Stats: config.OutputStats{DisableLog: true, LogInterval: time.Hour},
+		}}
+	})
+	defer d.gate.release()
 	scfg := syncer.SyncerConfig{Id: 1, Input: drive.StandaloneRedis(d.src.Addr(), "7.2.0"), Output: tgt.Redis(),
 		Channel:        config.ChannelConfig{Type: config.ChannelTypeMemory, Memory: &config.MemoryConfig{MaxSize: 1 << 20, LogSize: 1 << 16}},
 		CanTransaction: true}
